@@ -190,6 +190,15 @@ pub fn replay_main(args: &[String]) -> i32 {
         let st = Command::new(exe).args(std::iter::once("replay".to_string()).chain(args.iter().cloned())).env("TZ", &rf.host_tz).status().unwrap();
         return st.code().unwrap_or(2);
     }
+    if rf.key == "no-return" && !args.iter().any(|a| a == "--in-child") {
+        // a trace that does not return is executed in a child process under a time limit
+        let limit = env_u64("VERIF_HANG_S", 20);
+        println!("replay of {} (property {}, key no-return, {} events, host TZ {:?}) in a child process, limit {} s", path, rf.property, rf.trace.events.len(), rf.host_tz, limit);
+        return match exec_with_limit(&rf.trace, limit) {
+            Some(true) => { println!("NOT-REPRODUCED: the trace returns on this tree"); 0 }
+            Some(false) | None => { println!("VIOLATION property={} replay={}", rf.property, path); println!("REPRODUCED key=no-return event={}", rf.event); 1 }
+        };
+    }
     let check = match checks::get(&rf.property) { Some(c) => c, None => { eprintln!("unknown check {}", rf.property); return 2; } };
     let mut env = Env::new();
     env.explain = explain;
@@ -521,7 +530,9 @@ pub fn check_main(args: &[String]) -> i32 {
         exit = 1;
         let path = format!("{}/replays/{}-noreturn-{}.json", verif_dir(), id, i);
         if let Some(t) = trace {
-            let rf = ReplayFile { property: id.clone(), key: key.clone(), oracle: "O-total".into(), event: 0, detail: why.clone(), seed: mix(base, &id, *i), base_seed: base, index: *i, host_tz: t.host_tz.clone(), original_events: t.events.len(), trace: t.clone() };
+            // minimise the first few with child processes under the time limit
+            let min = if n_violations <= 3 { shrink_no_return(t, hang_s, 14) } else { t.clone() };
+            let rf = ReplayFile { property: id.clone(), key: key.clone(), oracle: "O-total".into(), event: min.events.len().saturating_sub(1), detail: why.clone(), seed: mix(base, &id, *i), base_seed: base, index: *i, host_tz: t.host_tz.clone(), original_events: t.events.len(), trace: min };
             std::fs::write(&path, serde_json::to_string_pretty(&rf).unwrap()).unwrap();
         }
         out_lines.push(format!("VIOLATION property={} replay={}", id, path));
@@ -635,6 +646,83 @@ fn run_single(id: &str, tier: &str, base: u64, total: u64, zone: u64, i: u64, li
             Err(_) => { let _ = child.wait(); return SingleOutcome::Lost("channel closed".into()); }
         }
     }
+}
+
+/// Execute a trace in a child process (under the trace's TZ) with a wall-clock limit.
+/// Some(true) = returned, Some(false) = killed at the limit, None = the child died.
+fn exec_with_limit(trace: &Trace, limit_s: u64) -> Option<bool> {
+    let dir = std::env::temp_dir().join(format!("sim-exec-{}-{:x}", std::process::id(), trace.hash()));
+    let _ = std::fs::create_dir_all(&dir);
+    let file = dir.join("trace.json");
+    std::fs::write(&file, serde_json::to_string(trace).ok()?).ok()?;
+    let exe = std::env::current_exe().ok()?;
+    let mut child = Command::new(exe).args(["exec-trace", file.to_str()?]).env("TZ", &trace.host_tz).stdin(Stdio::null()).stdout(Stdio::null()).stderr(Stdio::null()).spawn().ok()?;
+    let deadline = Instant::now() + Duration::from_secs(limit_s);
+    let res = loop {
+        match child.try_wait() {
+            Ok(Some(st)) => break if st.success() { Some(true) } else { None },
+            Ok(None) => {
+                if Instant::now() > deadline { let _ = child.kill(); let _ = child.wait(); break Some(false); }
+                std::thread::sleep(Duration::from_millis(50));
+            }
+            Err(_) => break None,
+        }
+    };
+    let _ = std::fs::remove_dir_all(&dir);
+    res
+}
+
+/// sim exec-trace <file with a Trace as JSON> : execute it once, exit 0
+pub fn exec_trace_main(args: &[String]) -> i32 {
+    let txt = match args.first().and_then(|p| std::fs::read_to_string(p).ok()) { Some(t) => t, None => return 2 };
+    let trace: Trace = match serde_json::from_str(&txt) { Ok(t) => t, Err(_) => return 2 };
+    let check = match checks::get(&trace.check) { Some(c) => c, None => return 2 };
+    let env = Env::new();
+    let _ = check.execute(&trace, &env);
+    0
+}
+
+/// Minimise a trace that does not return, with child processes under a time limit: shortest
+/// prefix that still does not return, then that prefix's last event alone (with the administrator
+/// events before it), then halves of its text. At most `budget` child runs.
+fn shrink_no_return(trace: &Trace, limit_s: u64, mut budget: u32) -> Trace {
+    let mut hangs = |t: &Trace, budget: &mut u32| -> bool { if *budget == 0 { return false; } *budget -= 1; !matches!(exec_with_limit(t, limit_s), Some(true)) };
+    let mut best = trace.clone();
+    // shortest hanging prefix (binary search; a prefix of a hanging run hangs iff it contains the culprit)
+    let (mut lo, mut hi) = (1usize, best.events.len());
+    while lo < hi && budget > 0 {
+        let mid = (lo + hi) / 2;
+        let mut c = best.clone();
+        c.events.truncate(mid);
+        if hangs(&c, &mut budget) { hi = mid; } else { lo = mid + 1; }
+    }
+    best.events.truncate(hi);
+    if best.events.len() > 1 {
+        let last = best.events.len() - 1;
+        let mut c = best.clone();
+        c.events = best.events.iter().enumerate().filter(|(i, e)| *i == last || e.actor == crate::trace::ADMIN || matches!(e.op, crate::trace::Op::SessionNew { .. })).map(|(_, e)| e.clone()).collect();
+        if c.events.len() < best.events.len() && hangs(&c, &mut budget) { best = c; }
+    }
+    // halves of the last text
+    loop {
+        let last = best.events.len() - 1;
+        let n = match &best.events[last].op { crate::trace::Op::Execute { text, .. } | crate::trace::Op::SessionText { text } => text.lines.len(), _ => 0 };
+        if n <= 1 || budget == 0 { break; }
+        let mut progressed = false;
+        for half in 0..2 {
+            let mut c = best.clone();
+            if let crate::trace::Op::Execute { text, .. } | crate::trace::Op::SessionText { text } = &mut c.events[last].op {
+                let keep: Vec<usize> = if half == 0 { (0..n / 2).collect() } else { (n / 2..n).collect() };
+                let lines: Vec<_> = keep.iter().map(|i| text.lines[*i].clone()).collect();
+                text.crlf = vec![false; lines.len()];
+                text.lines = lines;
+                text.trailing_nl = false;
+            }
+            if hangs(&c, &mut budget) { best = c; progressed = true; break; }
+        }
+        if !progressed { break; }
+    }
+    best
 }
 
 fn dump_trace(id: &str, tier: &str, base: u64, i: u64, zone: usize) -> Option<Trace> {
